@@ -40,6 +40,11 @@ def ustr(t, dim):
 
 def one(rep, sc, src, dst, dim, v, form, check):
     exp = float(Fr(v) * UO.conv(sc, src, dst, dim))
+    with rep.guard(check, {"src": src, "dst": dst, "dim": dim, "form": form}):
+        _one(rep, sc, src, dst, dim, v, form, check, exp)
+
+
+def _one(rep, sc, src, dst, dim, v, form, check, exp):
     q = UnitValue(v, mk_units(src, dim))
     try:
         if form == "system":
@@ -53,7 +58,17 @@ def one(rep, sc, src, dst, dim, v, form, check):
         elif form == "str":
             r = q.convert(ustr(dst, dim))
         elif form == "array":
-            r = UnitArray([v, 2 * v, -v], mk_units(src, dim)).convert(mk_sys(dst))
+            a = UnitArray([v, 2 * v, -v], mk_units(src, dim))
+            r0 = a.convert(mk_sys(dst))
+            if [float(x) for x in a.value] != [v, 2 * v, -v]:
+                rep.violation(check, "conv:source-array-modified", {"src": src, "dst": dst, "dim": dim})
+                return
+            a.convert(mk_sys(("km", "h", "kmol")))
+            r = a.convert(mk_sys(dst))              # a second conversion of the same object gives the same result
+            if [float(x) for x in r.value] != [float(x) for x in r0.value]:
+                rep.violation(check, "conv:repeated-conversion-differs", {"src": src, "dst": dst, "dim": dim,
+                                                                         "first": [float(x) for x in r0.value], "again": [float(x) for x in r.value]})
+                return
     except Exception as e:  # noqa
         rep.violation(check, "conv:exception:" + form, {"src": src, "dst": dst, "dim": dim, "exc": repr(e)[:200]})
         return
@@ -125,6 +140,15 @@ def run(tier, selftest=False, only=None):
         dim = (rng.randint(-3, 3), rng.randint(-3, 3), rng.randint(-3, 3))
         v = rng.choice([1.0, 0.3, -7.5, 1e12])
         q = UnitValue(v, mk_units(a, dim))
+        qa = UnitArray([v, 3 * v], mk_units(a, dim))
+        a_direct = [float(x) for x in qa.convert(mk_sys(c)).value]
+        a_via = [float(x) for x in qa.convert(mk_sys(b)).convert(mk_sys(c)).value]
+        a_back = [float(x) for x in qa.convert(mk_sys(b)).convert(mk_sys(a)).value]
+        a_again = [float(x) for x in qa.convert(mk_sys(c)).value]
+        if not (all(close(x, y) for x, y in zip(a_direct, a_via)) and all(close(x, y) for x, y in zip(a_back, [v, 3 * v]))
+                and a_again == a_direct and [float(x) for x in qa.value] == [v, 3 * v]):
+            rep.violation("composition", "conv:composition:array", {"a": a, "b": b, "c": c, "dim": dim, "direct": a_direct, "via": a_via,
+                                                                    "back": a_back, "again": a_again, "source_now": [float(x) for x in qa.value]})
         direct = q.convert(mk_sys(c)).value
         via = q.convert(mk_sys(b)).convert(mk_sys(c)).value
         back = q.convert(mk_sys(b)).convert(mk_sys(a)).value
